@@ -161,6 +161,9 @@ Scrut == {Var("a"), Var("X"), Var("Y"), Bin("&", Var("a"), Num(3)), Idx("arr", V
 F4 == {Prog("F4", <<Switch(e, <<Case(<<0>>, <<Set("c", 10)>> \o brk1), Case(<<1, 2>>, <<Set("c", 20)>> \o brk2), Default(<<Set("b", 30)>>)>>)>>) :
          e \in Scrut, brk1 \in {<<>>, <<Break>>}, brk2 \in {<<>>, <<Break>>}}
       \cup {Prog("F4", <<Switch(e, <<Case(<<1>>, <<Set("c", 10), Break>>), Case(<<200>>, <<S(Inc(FALSE, 1, Var("c")))>>), Case(<<3>>, <<Set("b", 7), Break>>)>>)>>) : e \in Scrut}
+      \* several values in the first group, 0 not the first of them
+      \cup {Prog("F4", <<Switch(e, <<Case(vs, <<Set("c", 10), Break>>), Case(<<3>>, <<Set("b", 7), Break>>)>> \o dflt)>>) :
+               e \in Scrut, vs \in {<<1, 0>>, <<2, 1, 0>>, <<0, 1>>}, dflt \in {<<>>, <<Default(<<Set("b", 30)>>)>>}}
       \* a case 0 that is not the first test, with and without a default
       \cup {Prog("F4", <<Switch(e, <<Case(<<2>>, <<Set("c", 10), Break>>), Case(<<0>>, <<Set("c", 20)>> \o brk1), Case(<<1>>, <<Set("b", 7), Break>>)>> \o dflt)>>) :
                e \in Scrut, brk1 \in {<<>>, <<Break>>}, dflt \in {<<>>, <<Default(<<Set("b", 30)>>)>>}}
@@ -359,12 +362,16 @@ F3e == {Prog("F3e", <<For(Asg("=", i, Inc(FALSE, dd, Var("b"))), Bin("<", i, Num
               Prog("F3e", <<Switch(Inc(FALSE, 1, Var("a")), <<Case(<<1>>, <<Set("c", 1), Break>>), Default(<<Set("c", 2)>>)>>), S(Asg("=", Var("b"), Var("a")))>>),
               Prog("F3e", <<For(Asg("=", Var("X"), Num(0)), Bin("<", Inc(FALSE, 1, Var("X")), Num(4)), None, <<S(Asg("+", Var("c"), Idx("arr", Var("X"))))>>)>>),
               Prog("F3e", <<S(Asg("=", Var("s"), Inc(FALSE, 1, Var("t")))), S(Asg("=", Var("ss"), Var("t")))>>),
+              Prog("F3e", <<S(Comma(Inc(FALSE, 1, Var("a")), Asg("=", Var("b"), Var("a"))))>>),
+              Prog("F3e", <<S(Comma(Inc(FALSE, -1, Var("X")), Asg("=", Var("c"), Idx("arr", Var("X")))))>>),
+              Prog("F3e", <<For(Comma(Asg("=", Var("X"), Num(0)), Asg("=", Var("c"), Num(0))), Bin("<", Var("X"), Num(4)), Comma(Inc(FALSE, 1, Var("X")), Asg("=", Var("c"), Var("X"))), <<S(Inc(FALSE, 1, Var("b")))>>)>>),
+              Prog("F3e", <<S(Asg("=", Var("c"), Comma(Inc(FALSE, 1, Var("a")), Bin("+", Var("a"), Num(1)))))>>),
               Prog("F3e", <<S(Asg("=", Var("c"), Inc(FALSE, 1, Idx("arr", Var("Y"))))), S(Inc(TRUE, 1, Var("Y"))), S(Asg("=", Var("b"), Idx("arr", Var("Y"))))>>)}
 \* F7d: a value is stored, the destination is tested at once (what the store leaves in the flags belief must be true of the
 \* WHOLE destination, for every destination kind)
 F7d == {Prog("F7d", <<S(Asg("=", d, v)), If(t, <<Set("c", 1)>>, <<Set("c", 2)>>)>>) :
           d \in {Var("s"), Var("ss"), Idx("sarr", Var("X")), Idx("sarr", Var("Y")), Idx("sarr", Num(1)), Var("a"), Idx("arr", Var("X")), Var("Y")},
-          v \in {Num(5), Num(256), Var("b"), Var("t")}, t \in {"plain", "not", "ne0", "eq0"}}
+          v \in {Num(5), Num(256), Var("b"), Var("t"), Idx("p", Num(2)), Deref("p"), Idx("arr", Var("b"))}, t \in {"plain", "not", "ne0", "eq0"}}
 F7dProg(p) == LET d == p.body[1].e.lhs
                   tt == p.body[2].c
               IN [p EXCEPT !.body[2].c = CASE tt = "plain" -> d [] tt = "not" -> Un("!", d) [] tt = "ne0" -> Bin("!=", d, Num(0)) [] tt = "eq0" -> Bin("==", d, Num(0))]
@@ -381,6 +388,10 @@ F2e == {Prog("F2e", <<If(g, <<t>>, <<If(Bin(op, Var("a"), k), <<Set("X", 1)>>, <
           op \in {">", "<=", ">=", "<"}, k \in {Num(1), Var("b")}}
        \cup {Prog("F2e", <<If(Bin("==", v, Num(0)), <<t>>, <<If(Bin(op, v, Num(0)), <<Set("X", 1)>>, <<Set("X", 2)>>)>>)>>) : v \in {Var("sa"), Var("a"), Var("X")},
           t \in {S(Asg("=", Var("c"), Bin("-", Var("a"), Var("b")))), S(Asg("=", Var("c"), Bin("+", Var("a"), Num(200))))}, op \in {">", "<=", ">=", "<"}}
+\* FO: plain char objects widened to 16 bits: zero- or sign-extended according to the char-signedness option (the driver
+\* compiles each program with -funsigned_char semantics and with -fsigned_char, and tells CSem which)
+FO == {Prog("FO", <<S(Asg(op, d, l))>>) : op \in {"=", "+", "-"}, d \in {Var("s"), Var("ss"), Idx("sarr", Var("X"))}, l \in {Var("pc"), Idx("pca", Var("X")), Idx("pca", Num(1)), Idx("pca", Var("Y"))}}
+      \cup {Prog("FO", <<S(Asg("=", Var("pc"), Var("a"))), S(Asg("=", Var("ss"), Var("pc")))>>), Prog("FO", <<S(Asg("=", Idx("pca", Var("X")), Var("b"))), S(Asg("=", Var("s"), Idx("pca", Var("X"))))>>)}
 \* FK: identifiers that begin with a keyword (elsev, returnv, dov) right where the keyword could stand
 FK == {Prog("FK", <<If(g, <<Set("b", 1)>>, <<>>), Set("elsev", 2), S(Asg("=", Var("c"), Var("elsev")))>>) : g \in {Var("a"), Bin("<", Var("a"), Var("b"))}}
       \cup {Prog("FK", <<Set("returnv", 3), S(Inc(FALSE, 1, Var("returnv"))), S(Asg("=", Var("c"), Var("returnv")))>>),
@@ -476,7 +487,7 @@ RW == {Pair2("commute", <<S(Asg("=", d, Bin(op, l, r)))>>, <<S(Asg("=", d, Bin(o
       \cup {Pair2("callbody", <<S(Asg("=", d, Call("g", <<x, y>>)))>>, <<S(Asg("=", d, Bin("-", x, y)))>>) : d \in {Var("a"), Var("Y")}, x \in Arg, y \in {Var("b"), Num(1)}}
       \cup {Pair2("callbody", <<S(Call("h", <<>>)), S(Asg("=", Var("b"), Var("a")))>>, <<S(Inc(FALSE, 1, Var("a"))), S(Asg("=", Var("b"), Var("a")))>>)}
       \cup {Pair2("callbody", <<S(Call("w", <<x>>))>>, <<S(Asg("=", Var("c"), x))>>) : x \in Arg}
-AllFams == F2e \cup F5g \cup F5f \cup F3e \cup F7dAll \cup F1n \cup F2d \cup FK \cup F5e \cup FT \cup FG \cup FP \cup FW \cup F3d \cup F4b \cup F5d \cup F8f \cup F8h \cup F8g \cup FL \cup F5c \cup F6 \cup F8 \cup F9 \cup F1a \cup F1b \cup F1c \cup F1d \cup F1e \cup F1f \cup F1g \cup F2a \cup F2b \cup F2c \cup F2z \cup F2s
+AllFams == FO \cup F2e \cup F5g \cup F5f \cup F3e \cup F7dAll \cup F1n \cup F2d \cup FK \cup F5e \cup FT \cup FG \cup FP \cup FW \cup F3d \cup F4b \cup F5d \cup F8f \cup F8h \cup F8g \cup FL \cup F5c \cup F6 \cup F8 \cup F9 \cup F1a \cup F1b \cup F1c \cup F1d \cup F1e \cup F1f \cup F1g \cup F2a \cup F2b \cup F2c \cup F2z \cup F2s
            \cup F3a \cup F3b \cup F3c \cup F4 \cup F5a \cup F5b \cup F7a \cup F7b \cup F7c
 Family ==
   CASE Fam = "ALL" -> AllFams [] Fam = "RW" -> RW [] Fam = "FX" -> FX \cup FS
@@ -485,7 +496,7 @@ Family ==
     [] Fam = "F2a" -> F2a [] Fam = "F2b" -> F2b [] Fam = "F2c" -> F2c [] Fam = "F2z" -> F2z [] Fam = "F2s" -> F2s
     [] Fam = "F3a" -> F3a [] Fam = "F3b" -> F3b [] Fam = "F3c" -> F3c
     [] Fam = "F4" -> F4 [] Fam = "F5a" -> F5a [] Fam = "F5b" -> F5b
-    [] Fam = "F7a" -> F7a [] Fam = "F7b" -> F7b [] Fam = "F7c" -> F7c [] Fam = "FW" -> FW [] Fam = "FL" -> FL [] Fam = "F5c" -> F5c [] Fam = "F6" -> F6 [] Fam = "F8" -> F8 [] Fam = "F8g" -> F8g [] Fam = "FP" -> FP [] Fam = "FG" -> FG [] Fam = "FT" -> FT [] Fam = "F5e" -> F5e [] Fam = "FK" -> FK [] Fam = "F1n" -> F1n [] Fam = "F2d" -> F2d [] Fam = "F7d" -> F7dAll [] Fam = "F3e" -> F3e [] Fam = "F5f" -> F5f [] Fam = "F5g" -> F5g [] Fam = "F2e" -> F2e [] Fam = "F8f" -> F8f [] Fam = "F3d" -> F3d [] Fam = "F4b" -> F4b [] Fam = "F5d" -> F5d [] Fam = "F9" -> F9
+    [] Fam = "F7a" -> F7a [] Fam = "F7b" -> F7b [] Fam = "F7c" -> F7c [] Fam = "FW" -> FW [] Fam = "FL" -> FL [] Fam = "F5c" -> F5c [] Fam = "F6" -> F6 [] Fam = "F8" -> F8 [] Fam = "F8g" -> F8g [] Fam = "FP" -> FP [] Fam = "FG" -> FG [] Fam = "FT" -> FT [] Fam = "F5e" -> F5e [] Fam = "FK" -> FK [] Fam = "F1n" -> F1n [] Fam = "F2d" -> F2d [] Fam = "F7d" -> F7dAll [] Fam = "F3e" -> F3e [] Fam = "F5f" -> F5f [] Fam = "F5g" -> F5g [] Fam = "F2e" -> F2e [] Fam = "FO" -> FO [] Fam = "F8f" -> F8f [] Fam = "F3d" -> F3d [] Fam = "F4b" -> F4b [] Fam = "F5d" -> F5d [] Fam = "F9" -> F9
 
 VARIABLE prog
 Init == prog \in Family
